@@ -10,7 +10,12 @@ Format knowledge hard-coded here (nothing is imported from dissect.hypervisor ex
   encryption.data base64(blob) with key = data key, MAC = the MAC named in the pair that was opened, plain = hidden .vmx text (UTF-8)
 Primitives (AES, HMAC, PBKDF2) come from pycryptodome / hashlib / hmac and are trusted.
 
-Public: gen_recipe, build, impl_unlock, tamper, wrong_phrases, parse_dictionary, selftest.
+Wrong keys that look right: a blob decrypted under a wrong key ends in valid PKCS#7 padding for about 1 in 256 blobs; for such
+a blob the MAC is the only thing that tells the wrong key from the right one. `force_pad_collision` searches (deterministically)
+a salt / IV for which a chosen pair (or the configuration blob) pads validly under a chosen *wrong* key; the recipe records
+what was forced (`forced`) and `build` re-checks it with its own decryption (`padvalid`).
+
+Public: gen_recipe, build, impl_unlock, tamper, wrong_phrases, parse_dictionary, force_pad_collision, pads_validly, selftest.
 """
 from __future__ import annotations
 
@@ -65,6 +70,17 @@ def _seal(key: bytes, iv: bytes, plain: bytes, mac: str) -> bytes:
     pad = 16 - len(plain) % 16                       # PKCS#7: 1..16 bytes, a whole block when already aligned
     ct = AES.new(key, AES.MODE_CBC, iv=iv).encrypt(plain + bytes([pad]) * pad)
     return iv + ct + hmac.new(key, plain, name).digest()[:size]
+
+
+def pads_validly(key: bytes, blob: bytes, mac: str) -> bool:
+    """does `blob` (IV || ciphertext || MAC of the size `mac` names), decrypted under `key`, end in valid PKCS#7 padding?
+    (true for the right key by construction; true for a wrong key for ~1/256 of all blobs)"""
+    from Crypto.Cipher import AES
+    ct = blob[16:len(blob) - MACS[mac][1]]
+    if len(blob) < 16 + MACS[mac][1] or not ct or len(ct) % 16:
+        return False
+    d = AES.new(key, AES.MODE_CBC, iv=blob[:16]).decrypt(ct)
+    return 1 <= d[-1] <= 16 and d[-d[-1]:] == bytes([d[-1]]) * d[-1]
 
 
 # --------------------------------------------------------------------------- .vmx dictionary text
@@ -181,14 +197,15 @@ def _gen_pair(rng, combo, big, taken, key_hex=None) -> dict:
     return p
 
 
-def gen_recipe(rng: random.Random, tier: str = "quick", combo=None) -> dict:
+def gen_recipe(rng: random.Random, tier: str = "quick", combo=None, npairs=None, pos=None) -> dict:
+    """npairs / pos: number of pairs in the key safe and the position of the pair the configuration is sealed for (default: drawn)"""
     big = tier != "quick"
     taken: set = set()
     main = _gen_pair(rng, combo or rng.choice(COMBOS), big, taken)
     pairs = [main]
-    for _ in range(rng.choice([0, 0, 0, 1, 1, 2, 3])):
+    for _ in range(rng.choice([0, 0, 0, 1, 1, 2, 3]) if npairs is None else npairs - 1):
         pairs.append(_gen_pair(rng, rng.choice(COMBOS), False, taken, key_hex=main["key"] if rng.random() < 0.6 else None))
-    pos = rng.randrange(len(pairs))
+    pos = rng.randrange(len(pairs)) if pos is None else pos
     pairs[0], pairs[pos] = pairs[pos], pairs[0]
     x = rng.random()
     nh = 0 if x < 0.08 else rng.randint(1, 12) if x < (0.6 if big else 0.85) else rng.randint(13, 60)
@@ -206,14 +223,99 @@ def gen_recipe(rng: random.Random, tier: str = "quick", combo=None) -> dict:
             "esc": {"outer": rng.choice(["all", "all", "std", "min"]), "inner": rng.choice(["all", "min", "min", "std"]), "upper": rng.random() < 0.3}}
 
 
+# --------------------------------------------------------------------------- wrong keys that pad validly
+
+def _wrong_key(r: dict, victim, under) -> bytes:
+    """the wrong key `under` stands for, as the reader will compute it when it tries `victim`:
+    victim = pair index: the key pair `victim`'s locator derives from the passphrase of pair `under` (or from {"phrase": w});
+    victim = "data": the data key carried by pair `under` (which must differ from the key the configuration is sealed with)"""
+    if victim == "data":
+        return bytes.fromhex(r["pairs"][under]["key"])
+    pw = under["phrase"] if isinstance(under, dict) else r["pairs"][under]["passphrase"]
+    return _kek(r["pairs"][victim], pw)
+
+
+def _victim_blob(r: dict, victim):
+    """-> (blob, MAC name the reader splits it with)"""
+    if victim == "data":
+        main = r["pairs"][r["pos"]]
+        return _seal(bytes.fromhex(main["key"]), bytes.fromhex(r["data_iv"]), _hidden_text(r).encode("utf-8"), main["mac"]), None
+    p = r["pairs"][victim]
+    e = r["esc"]
+    return _pair_blob(p, lambda s: _esc(s, e["inner"], e["upper"]))[0], p["mac"]
+
+
+def collides(r: dict, victim, under) -> bool:
+    """independent check: does `victim`'s blob end in valid PKCS#7 padding under the wrong key `under` stands for?"""
+    blob, mac = _victim_blob(r, victim)
+    if victim == "data":
+        mac = r["pairs"][under]["mac"]              # the reader splits the configuration blob with the MAC of the pair it opened
+        if r["pairs"][under]["key"] == r["pairs"][r["pos"]]["key"]:
+            raise ValueError("the pair carries the right data key")
+    elif (under["phrase"] if isinstance(under, dict) else r["pairs"][under]["passphrase"]) == r["pairs"][victim]["passphrase"]:
+        raise ValueError("that is the right passphrase of the pair")
+    return pads_validly(_wrong_key(r, victim, under), blob, mac)
+
+
+def force_pad_collision(r: dict, victim, under, vary: str = "salt", tag: str = "", limit: int = 20000) -> dict:
+    """Deterministic search (candidate n = SHA-256(tag|n)) for a salt or IV of `victim` with which its blob pads validly under the
+    wrong key `under` stands for (see _wrong_key). vary = "salt" re-derives both keys per candidate: the caller keeps the rounds
+    of the victim small; vary = "iv" leaves the locator alone (any rounds). The recipe is changed in place and the forcing is
+    recorded in r["forced"]; expected ~256 candidates. Nothing else of the recipe changes, so every expectation `build` derives
+    (which passphrase opens what) is the same as for a file that does not collide."""
+    if victim == "data" and vary != "iv":
+        raise ValueError("the configuration blob has no salt")
+    p = None if victim == "data" else r["pairs"][victim]
+    if vary == "salt" and len(p["salt"]) < 16:
+        p["salt"] = "00" * 16                        # a salt long enough to search in (the length is part of the recipe from here on)
+    fast = None
+    if vary == "iv":                                 # neither key depends on the IV: derive them once
+        collides(r, victim, under)                   # (argument checks)
+        wrong = _wrong_key(r, victim, under)
+        if victim == "data":
+            main = r["pairs"][r["pos"]]
+            fast = (bytes.fromhex(main["key"]), _hidden_text(r).encode("utf-8"), main["mac"], r["pairs"][under]["mac"], wrong)
+        else:
+            e = r["esc"]
+            plain = _pair_blob(p, lambda s: _esc(s, e["inner"], e["upper"]))[1].encode("ascii")
+            fast = (_kek(p, p["passphrase"]), plain, p["mac"], p["mac"], wrong)
+    for n in range(limit):
+        cand = hashlib.sha256(f"{tag}|{victim}|{n}".encode()).digest()
+        if vary == "salt":
+            k = len(p["salt"]) // 2
+            p["salt"] = (cand * (k // 32 + 1))[:k].hex()
+            hit = collides(r, victim, under)
+        else:
+            hit = pads_validly(fast[4], _seal(fast[0], cand[:16], fast[1], fast[2]), fast[3])
+            if hit and victim == "data":
+                r["data_iv"] = cand[:16].hex()
+            elif hit:
+                p["iv"] = cand[:16].hex()
+        if hit:
+            assert collides(r, victim, under)
+            f = {"victim": victim, "under": under, "vary": vary, "tries": n + 1}
+            r.setdefault("forced", []).append(f)
+            return f
+    raise ValueError(f"no colliding {vary} within {limit} candidates (MAC sizes of different block residue?)")
+
+
 # --------------------------------------------------------------------------- build
+
+def _kek(p: dict, passphrase: str) -> bytes:
+    """the key the locator of pair `p` derives from `passphrase` (its own passphrase: the key its blob is sealed with)"""
+    return hashlib.pbkdf2_hmac(KDFS[p["kdf"]], passphrase.encode("utf-8"), bytes.fromhex(p["salt"]), p["rounds"], CIPHERS[p["cipher"]])
+
+
+def _pair_blob(p: dict, ei):
+    """-> (sealed blob of the pair, its plaintext)"""
+    plain = "type=key:cipher=%s:key=%s" % (ei(p["key_cipher"]), ei(_b64(bytes.fromhex(p["key"]))))
+    return _seal(_kek(p, p["passphrase"]), bytes.fromhex(p["iv"]), plain.encode("ascii"), p["mac"]), plain
+
 
 def _pair_text(p: dict, eo, ei):
     """-> (pair string, length of the sealed key text, (offset, length) of the escaped salt, same of the escaped blob)"""
     salt = bytes.fromhex(p["salt"])
-    kek = hashlib.pbkdf2_hmac(KDFS[p["kdf"]], p["passphrase"].encode("utf-8"), salt, p["rounds"], CIPHERS[p["cipher"]])
-    plain = "type=key:cipher=%s:key=%s" % (ei(p["key_cipher"]), ei(_b64(bytes.fromhex(p["key"]))))
-    blob = _seal(kek, bytes.fromhex(p["iv"]), plain.encode("ascii"), p["mac"])
+    blob, plain = _pair_blob(p, ei)
     members = [("pass2key", p["kdf"]), ("cipher", p["cipher"]), ("rounds", str(p["rounds"])), ("salt", _b64(salt))]
     parts, salt_at = ["pair/(phrase/", eo(p["phrase_id"]), "/"], None
     for j, idx in enumerate(p["order"]):
@@ -228,16 +330,82 @@ def _pair_text(p: dict, eo, ei):
     return "".join(parts), len(plain), salt_at, wrapped_at
 
 
+# key locators of kinds the reader does not implement (its comment lists rawkey, ldap, script, role, fqid), identifiers that are no
+# kind at all, and the supported identifiers in another case. The exact VMware syntax behind the identifier does not matter to a
+# reader that stops at the identifier; the bodies below only have to survive the list / pair splitting (structural characters escaped).
+FOREIGN_KINDS = ["rawkey", "fqid", "ldap", "script", "role", "tpm", "null", "Phrase", "PAIR", "List"]
+FOREIGN_SHAPES = ["member", "pair", "pair-list", "pair-pair", "list", "list-pair"]
+
+
+def _foreign_locator(f: dict, eo, ei) -> str:
+    k, blob = f["kind"], bytes.fromhex(f["blob"])
+    if k == "rawkey":
+        return "rawkey/" + eo("type=key:cipher=%s:key=%s" % (ei("AES-256"), ei(_b64(blob[:32]))))
+    if k == "fqid":
+        return "fqid/" + eo("<VMWARE-NULL>/kmip-cluster-1/" + blob[:16].hex())
+    if k == "ldap":
+        return "ldap/" + eo("ldap.example.org") + "/" + eo("dc=example,dc=org") + "/389/" + eo("cn=vmkeys (prod)")
+    if k == "script":
+        return "script/" + eo("/usr/lib/vmware/bin/getkey.sh") + "/" + eo(_b64(blob[:20]))
+    if k == "role":
+        return "role/" + eo(f.get("role", "obfuscation"))
+    if k == "tpm":
+        return "tpm/" + eo(_b64(blob[:24]))
+    if k == "null":
+        return "null"
+    if k == "Phrase":                               # a complete, valid phrase locator — but the identifier is spelled `Phrase`
+        t = _pair_text(f["pair"], eo, ei)[0]
+        return "Phrase/" + t[len("pair/(phrase/"):t.index(",")]
+    if k in ("PAIR", "List"):                       # handled by the shapes (the identifier of the wrapper is respelled)
+        return _pair_text(f["pair"], eo, ei)[0].replace("pair/(", k + "/(" if k == "PAIR" else "pair/(", 1)
+    raise ValueError(f"unknown foreign kind {k}")
+
+
+def foreign_member(f: dict, eo, ei) -> str:
+    """text of one key-safe list member that is, wraps or contains a key locator of an unsupported kind.
+    f: kind (FOREIGN_KINDS), shape (FOREIGN_SHAPES), blob (hex, filler), mac, pair (a full pair recipe used where the shape
+    needs a *supported* sibling or where the foreign thing is a respelled supported one)"""
+    loc, sh = _foreign_locator(f, eo, ei), f["shape"]
+    data = eo(_b64(bytes.fromhex(f["blob"])))
+    good = _pair_text(f["pair"], eo, ei)[0]
+    good_phrase = good[len("pair/("):good.index(",")]
+    lst = "List" if f["kind"] == "List" else "list"
+    if f["kind"] == "List" and sh in ("member", "pair", "pair-pair"):
+        sh = "list"                                  # a respelled `list` needs a list to be
+    if sh == "member":
+        return loc
+    if sh == "pair":                                # a pair whose key locator is foreign
+        return "pair/(%s,%s,%s)" % (loc, eo(f["mac"]), data)
+    if sh == "pair-list":                           # a pair whose key locator is a list: a supported phrase next to the foreign one
+        return "pair/(%s/(%s,%s),%s,%s)" % (lst, good_phrase, loc, eo(f["mac"]), data)
+    if sh == "pair-pair":                           # a pair whose key locator is a pair whose key locator is foreign
+        return "pair/(pair/(%s,%s,%s),%s,%s)" % (loc, eo(f["mac"]), data, eo(f["mac"]), data)
+    if sh == "list":                                # a nested list: a supported pair and the foreign locator
+        return "%s/(%s,%s)" % (lst, good, loc) if f.get("inner_first", True) else "%s/(%s,%s)" % (lst, loc, good)
+    if sh == "list-pair":                           # a nested list: a supported pair and a pair with a foreign locator
+        return "%s/(%s,pair/(%s,%s,%s))" % (lst, good, loc, eo(f["mac"]), data)
+    raise ValueError(f"unknown foreign shape {sh}")
+
+
+def gen_foreign(rng, kind: str, shape: str, at: int) -> dict:
+    taken: set = set()
+    return {"at": at, "kind": kind, "shape": shape, "blob": rng.randbytes(rng.choice([48, 52, 64, 68])).hex(), "mac": rng.choice(list(MACS)),
+            "role": rng.choice(["obfuscation", "adminIdent", "adminRecovery", "server"]), "inner_first": rng.random() < 0.5,
+            "pair": _gen_pair(rng, rng.choice(COMBOS), False, taken)}
+
+
 def build(recipe: dict) -> dict:
     r = recipe
     e = r["esc"]
     eo = lambda s: _esc(s, e["outer"], e["upper"])
     ei = lambda s: _esc(s, e["inner"], e["upper"])
     main = r["pairs"][r["pos"]]
+    members = [(i, _pair_text(p, eo, ei)) for i, p in enumerate(r["pairs"])]
+    for f in r.get("foreign", []):                 # members of a kind the reader does not implement, at list position f["at"]
+        members.insert(f["at"], (None, (foreign_member(f, eo, ei), 0, None, None)))
     ks, rel = "vmware:key/list/(", {}
-    for i, p in enumerate(r["pairs"]):
-        s, nplain, salt_at, wrapped_at = _pair_text(p, eo, ei)
-        ks += "," if i else ""
+    for j, (i, (s, nplain, salt_at, wrapped_at)) in enumerate(members):
+        ks += "," if j else ""
         if i == r["pos"]:
             wrapped_plain_len = nplain
             rel = {"salt": (len(ks) + salt_at[0], salt_at[1]), "wrapped": (len(ks) + wrapped_at[0], wrapped_at[1])}
@@ -267,7 +435,13 @@ def build(recipe: dict) -> dict:
     hidden = parse_dictionary(hidden_text)
     alt = [[p["passphrase"], "ok" if p["key"] == main["key"] and p["mac"] == main["mac"] else "err"]
            for i, p in enumerate(r["pairs"]) if i != r["pos"]]
+    padvalid = []
+    for f in r.get("forced", []):                  # re-checked here with the sealer's own decryption, never taken on trust
+        assert collides(r, f["victim"], f["under"]), f"forced collision {f} does not hold"
+        padvalid.append([f["victim"], f["under"]])
     return {"text": text, "passphrase": main["passphrase"], "hidden": hidden, "visible": visible, "expected": {**visible, **hidden},
+            "padvalid": padvalid, "foreign": [[f["at"], f["kind"], f["shape"]] for f in r.get("foreign", [])],
+            "members": [("foreign" if i is None else "main" if i == r["pos"] else "pair") for i, _ in members],
             "fields": {f: text[a:b] for f, (a, b) in spans.items()}, "spans": spans, "alt": alt, "esc": e,
             "mac_size": MACS[main["mac"]][1], "hidden_text": hidden_text, "plain_len": len(plain),
             "plain_lens": {"data": len(plain), "wrapped": wrapped_plain_len},
@@ -362,7 +536,7 @@ def _pbkdf2_ref(h, pw, salt, rounds, n):          # RFC 8018 §5.2 from hmac alo
 def selftest(n: int = 300, seed: int = 0, tier: str = "quick") -> int:
     assert _pbkdf2_ref("sha1", b"password", b"salt", 1, 20).hex() == "0c60c80f961f0e71f3a9b524af6012062fe037a6"      # RFC 6070 #1
     assert _pbkdf2_ref("sha256", "pä".encode(), b"", 7, 40) == hashlib.pbkdf2_hmac("sha256", "pä".encode(), b"", 7, 40)
-    stats = {k: 0 for k in ("cases", "roundtrip_ok", "wrong_ok", "alt_ok", "tamper_ok", "mismatch", "salt_empty", "undetected_padding_only")}
+    stats = {k: 0 for k in ("cases", "roundtrip_ok", "wrong_ok", "alt_ok", "tamper_ok", "mismatch", "salt_empty", "undetected_padding_only", "padvalid_ok")}
     combos, mods, errs, lowlast, bad = {}, {}, {}, 0, []
 
     def miss(i, recipe, what, **kw):
@@ -419,6 +593,20 @@ def selftest(n: int = 300, seed: int = 0, tier: str = "quick") -> int:
                 ok = closed(i, recipe, dict(b, visible=vis), res, "tamper " + desc)
                 stats["tamper_ok"] += ok
                 stats["undetected_padding_only"] += (not ok) and info["padding_only"]
+    # wrong keys that pad validly: an earlier pair under the later pair's passphrase (salt / IV searched), every pair still opens
+    stats["padvalid_ok"] = 0
+    for i in range(max(6, n // 10)):
+        rng = random.Random(f"vmx-padvalid:{seed}:{i}")
+        recipe = gen_recipe(rng, "quick", combo=COMBOS[i % len(COMBOS)], npairs=2, pos=i % 2)
+        recipe["pairs"][0]["rounds"] = min(recipe["pairs"][0]["rounds"], 60)
+        force_pad_collision(recipe, 0, 1, "salt" if i % 3 else "iv", tag=f"selftest:{seed}:{i}")
+        b = build(json.loads(json.dumps(recipe)))
+        assert b["padvalid"] == [[0, 1]]
+        res = impl_unlock(b["text"], b["passphrase"])
+        if res[0] == "ok" and res[1] == b["expected"]:
+            stats["padvalid_ok"] += 1
+        else:
+            miss(i, recipe, "correct passphrase, another pair pads validly under it", got=res[1] if res[0] == "err" else _diff(b["expected"], res[1]))
     print(json.dumps(stats))
     print("combos covered:", len(combos), "/ 18   plaintext length mod 16:", dict(sorted(mods.items())), "  last plaintext byte <= 16:", lowlast)
     print("error kinds:", errs)
